@@ -160,11 +160,14 @@ def far(a, b, tol):
 _ROUND_UF = {}
 
 
-def _round_uf(nd):
-    f = _ROUND_UF.get(nd)
+def _round_uf(nd, numpy_style=False):
+    """np.round and the builtin round are different functions at ties (NumPy scales and
+    rounds half to even, CPython rounds the exact decimal value): separate symbols."""
+    key = (nd, numpy_style)
+    f = _ROUND_UF.get(key)
     if f is None:
-        f = z3.Function('ROUND%s' % (str(nd).replace('-', 'm')), z3.RealSort(), z3.RealSort())
-        _ROUND_UF[nd] = f
+        f = z3.Function('%sROUND%s' % ('NP' if numpy_style else 'PY', str(nd).replace('-', 'm')), z3.RealSort(), z3.RealSort())
+        _ROUND_UF[key] = f
     return f
 
 
@@ -184,10 +187,10 @@ def sround(x, ndigits=None, numpy_style=False):
         k = c.fresh('rnd', 'int')
         c.lemma(z3.And(z3.ToReal(k) - xt <= z3.RealVal('1/2'), xt - z3.ToReal(k) <= z3.RealVal('1/2')))
         return SNum(k)
-    f = _round_uf(ndigits)
+    f = _round_uf(ndigits, numpy_style)
     app = f(xt)
     half = z3.RatVal(1, 2 * 10 ** ndigits) if ndigits >= 0 else z3.RealVal(5 * 10 ** (-ndigits - 1))
-    apps = c.uf_apps.setdefault(('round', ndigits), [])
+    apps = c.uf_apps.setdefault(('round', ndigits, numpy_style), [])
     if not any(a.eq(xt) for a, _ in apps):
         c.lemma(z3.And(app - xt <= half, xt - app <= half))
         # the rounded value is a multiple of 10**-n (makes "rounding dropped" models
@@ -590,10 +593,12 @@ def _register_uf_floats():
             if k.startswith('IPOW'):
                 n = int(k[4:])
                 return lambda b: b ** n
-            if k.startswith('ROUND'):
-                nd = k[5:]
+            if k.startswith('NPROUND') or k.startswith('PYROUND'):
+                nd = k[7:]
                 nd = -int(nd[1:]) if nd.startswith('m') else int(nd)
-                return lambda x: float(np.round(x, nd))
+                if k.startswith('NP'):
+                    return lambda x: float(np.round(x, nd))
+                return lambda x: float(builtins.round(float(x), nd))
             return d
     lazy = _Lazy(_core.UF_FLOAT)
     _core.UF_FLOAT = lazy
